@@ -1,13 +1,21 @@
 #!/bin/sh
 # build_model.sh Cxx : compile build/ocaml/Cxx.ml (extracted) + driver into build/bin/model_Cxx
+# (each model is compiled in its own sub-directory so that concurrent builds do not race)
 set -e
 P="$1"
-L=$(echo "$P" | tr 'A-Z' 'a-z')
-cd /verif/build/ocaml
-mkdir -p ../bin
-if [ ../bin/model_$P -nt $P.ml ] && [ ../bin/model_$P -nt /verif/ocaml/driver.ml ]; then exit 0; fi
-cp /verif/ocaml/driver.ml driver.ml
+OD="${VERIF_OCAML_DIR:-/verif/build/ocaml}"
+BD="${VERIF_BIN_DIR:-/verif/build/bin}"
+mkdir -p "$OD" "$BD"
+cd "$OD"
+if [ "$BD"/model_$P -nt $P.ml ] && [ "$BD"/model_$P -nt /verif/ocaml/driver.ml ]; then exit 0; fi
+W="$OD/w_$P.$$"
+rm -rf "$W"; mkdir -p "$W"
+cp $P.ml $P.mli "$W"/
+cp /verif/ocaml/driver.ml "$W"/driver.ml
+cd "$W"
 printf 'let () = Driver.main %s.run_%s\n' "$P" "$P" > main_$P.ml
 # extracted code refers to Big_int_Z (zarith's Big_int compatibility layer)
-ocamlfind ocamlopt -O2 -w -a -package zarith -linkpkg $P.mli $P.ml driver.ml main_$P.ml -o ../bin/model_$P 2>/dev/null || \
-ocamlfind ocamlopt -w -a -package zarith -linkpkg $P.mli $P.ml driver.ml main_$P.ml -o ../bin/model_$P
+( ocamlfind ocamlopt -O2 -w -a -package zarith -linkpkg $P.mli $P.ml driver.ml main_$P.ml -o model_$P 2>/dev/null || \
+  ocamlfind ocamlopt -w -a -package zarith -linkpkg $P.mli $P.ml driver.ml main_$P.ml -o model_$P )
+mv model_$P "$BD"/model_$P
+cd "$OD"; rm -rf "$W"
